@@ -541,9 +541,22 @@ fn probe_from_rule(rng: &mut Rng, rule: &Value) -> Probe {
         ip,
         dt_ns: 0,
     };
+    // a header given twice (multi-valued), names in another case
+    if !p.headers.is_empty() && rng.chance(1, 5) {
+        let (n, _) = p.headers[rng.below(p.headers.len())].clone();
+        let n2 = if rng.coin() { n.to_uppercase() } else { n.to_lowercase() };
+        p.headers.push((n2, rng.pick_str(HEADER_VALUES)));
+    }
+    // marketing parameters on the request (ignored for matching when so configured)
+    if rng.chance(1, 8) {
+        let sep = if p.path.contains('?') { '&' } else { '?' };
+        p.path = format!("{}{}{}", p.path, sep, rng.pick_str(&["utm_source=a", "utm_medium=b&utm_campaign=c", "zz=1"]));
+    }
     // perturb one aspect half of the time
     if rng.coin() {
-        match rng.below(7) {
+        match rng.below(9) {
+            7 => p.scheme = p.scheme.as_ref().map(|s| s.to_uppercase()),
+            8 => p.method = Some(rng.pick_str(&["get", "Post", "OPTIONS", "HEAD", ""])),
             0 => p.path = rng.pick_str(&["/", "/a", "/blog/x", "/u/1", "/nomatch", "/A", "/a/b", "/u/42/p/x"]),
             1 => p.host = Some(rng.pick_str(&["example.com", "EXAMPLE.com", "abc.example.com", "x.shop.example.com", "other.org", "www.site.com", ""])),
             2 => p.scheme = rng.pick(&[None, Some("http".to_string()), Some("https".to_string()), Some("".to_string())]).clone(),
